@@ -18,7 +18,7 @@ Trace == ndJsonDeserialize(IOEnv.TRACE_FILE)
 VARIABLES tkLine, bad
 tkvars == <<tkLine, bad>>
 
-MaxBad == 40
+MaxBad == 400
 
 Tag(fails, line) == [i \in 1..Len(fails) |-> <<fails[i], line>>]
 Cap(s) == IF Len(s) > MaxBad THEN SubSeq(s, 1, MaxBad) ELSE s
